@@ -1471,4 +1471,48 @@ theorem consistentC_iff {L : List LogItem} : ConsistentC L ↔ Consistent L := b
 
 instance (L : List LogItem) : Decidable (Consistent L) := decidable_of_iff _ consistentC_iff
 
+/-! ### where tracker panics show up as events -/
+
+/-- `applyPr` emits `panic` exactly when the parent-ready tracker's operation panicked -/
+theorem applyPr_panic_iff (p : Pool) (r : ParentReady.Res) : Event.panic ∈ (p.applyPr r).2 ↔ r = none := by
+  unfold Pool.applyPr
+  cases r with
+  | none => simp
+  | some x => obtain ⟨pr, anns, wk⟩ := x; simp [prEvents]
+
+/-- `handle_finalization` emits `panic` exactly when the finality tracker's operation panicked ("consensus safety
+    violation") or the parent-ready tracker's batch did -/
+theorem handleFin_panic_iff (p : Pool) (r : Finality.Res) :
+    Event.panic ∈ (p.handleFin r).2 ↔
+      (r = .panic ∨ ∃ t ev, r = .ok t ev ∧ ParentReady.handleFinalization p.pr ev = none) := by
+  unfold Pool.handleFin
+  cases r with
+  | panic => simp
+  | ok t ev =>
+    dsimp only
+    rw [applyPr_panic_iff]
+    constructor
+    · intro h; exact Or.inr ⟨t, ev, rfl, h⟩
+    · rintro (h | ⟨t', ev', h, h2⟩)
+      · cases h
+      · cases h; exact h2
+
+/-- the finality operation of a consistent next log item does not panic -/
+theorem fin_item_ok {k : Trk} {L : List LogItem} (w : Wired k L) (it : LogItem) (hc : Consistent (L ++ [it])) :
+    ∀ op ∈ it.finOp, ∃ t ev, Finality.step k.fin op = .ok t ev := by
+  intro op hop
+  obtain ⟨f1, h1, _⟩ := trace_inv L hc.prefix.safe
+  obtain ⟨f2, h2, _⟩ := trace_inv (L ++ [it]) hc.safe
+  rw [finOp_snoc, fin_run_append, h1] at h2
+  simp only at h2
+  have hfo : it.finOp = [op] := by
+    cases it with
+    | block b par => simp [LogItem.finOp] at hop ⊢; exact hop.symm
+    | cert c =>
+      cases hk : c.kind <;> simp [LogItem.finOp, hk] at hop ⊢ <;> exact hop.symm
+  rw [hfo, fin_run_single, w.fin] at h2
+  cases hs : Finality.step k.fin op with
+  | panic => rw [hs] at h2; simp at h2
+  | ok t ev => exact ⟨t, ev, rfl⟩
+
 end AgModel.Pool
